@@ -1,6 +1,6 @@
 #!/bin/bash
 # try_mutant.sh <patch.diff> <tier> <id> [<id>...] : apply a seeded change to /repo, run checks, undo.
-patch=$1; tier=$2; shift 2
+patch=$(readlink -f $1); tier=$2; shift 2
 cd /repo || exit 2
 if ! git diff --quiet; then echo "repo dirty"; exit 2; fi
 if ! git apply "$patch" 2>/dev/null; then
